@@ -133,7 +133,9 @@ def _apply_patch(sandbox, patch):
     undo = {}
     for rel, v in sorted((patch or {}).items()):
         p = os.path.join(sandbox, rel)
-        if os.path.isdir(p) and not os.path.islink(p):
+        if os.path.islink(p):
+            undo[rel] = ("absent", None)
+        elif os.path.isdir(p) and not os.path.islink(p):
             undo[rel] = ("dir", None)
         elif os.path.exists(p):
             with _real_open(p, "rb") as f:
@@ -150,6 +152,11 @@ def _apply_patch(sandbox, patch):
                 _real["unlink"](p)
             os.makedirs(p, exist_ok=True)
             continue
+        if isinstance(v, dict) and "symlink" in v:
+            if os.path.lexists(p):
+                _real["unlink"](p)
+            _real["symlink"](v["symlink"], p)
+            continue
         data = v.encode("utf-8") if isinstance(v, str) else base64.b64decode(v["b64"])
         with _real_open(p, "wb") as f:
             f.write(data)
@@ -160,7 +167,9 @@ def _undo_patch(sandbox, undo):
     import shutil
     for rel, (kind, data) in undo.items():
         p = os.path.join(sandbox, rel)
-        if os.path.isdir(p) and not os.path.islink(p) and kind != "dir":
+        if os.path.islink(p):
+            _real["unlink"](p)
+        elif os.path.isdir(p) and not os.path.islink(p) and kind != "dir":
             shutil.rmtree(p, ignore_errors=True)
         elif os.path.exists(p) and kind != "dir":
             _real["unlink"](p)
